@@ -667,3 +667,88 @@ Proof.
     rewrite app_assoc. auto.
 Qed.
 End Uncompressed.
+
+Lemma SInv_init c ks : Forall (fun k : bytes => length k = 4%nat) ks -> SInv c (init_cst false ks) [] [].
+Proof.
+  intros Hk. unfold SInv, init_cst, cst0, CInv. cbn [mw wopen comp mws0 hdr werrc keys].
+  split; [|auto]. split; [reflexivity|]. split; [reflexivity|]. split; [exact Hk|].
+  split; [reflexivity|]. split; [constructor|]. split; [constructor|]. exact tail_ok_nil.
+Qed.
+
+Lemma SInv_final c s ds dn : SInv c s ds dn ->
+  exists fs, rfc_parse (wire_of s) = Some fs /\ rfc_valid (srv c) false fs = true /\ messages fs = Some dn.
+Proof.
+  intros ((Hh & He & Hk & Hw & Hok & Hsh & Htl) & _ & _).
+  exists (map (abs_fd (srv c)) ds).
+  change (wire_of s) with (wire (mw s)). rewrite Hw.
+  split; [apply rfc_parse_enc; exact Hok|].
+  destruct (Htl []) as [A B]. rewrite app_nil_r in A, B.
+  split.
+  - unfold rfc_valid. rewrite A. cbn [seq_ok negb]. rewrite andb_true_r.
+    apply forallb_forall. intros f Hf. apply in_map_iff in Hf. destruct Hf as (d & <- & Hd).
+    rewrite Forall_forall in Hok, Hsh. apply frame_ok_abs; auto.
+  - unfold messages. rewrite B. cbn. rewrite app_nil_r. reflexivity.
+Qed.
+
+(* every script of well-formed items over an uncompressed connection, both roles, every buffer size *)
+Theorem wire_valid_uncompressed c ks its :
+  15 <= blen c < big -> Forall (fun k : bytes => length k = 4%nat) ks -> Forall item_ok its ->
+  exists s', run_items c (init_cst false ks) its = Ok (s', eOK) /\
+  exists fs, rfc_parse (wire_of s') = Some fs /\ rfc_valid (srv c) false fs = true /\
+             messages fs = Some (concat (map item_msgs its)).
+Proof.
+  intros Hb Hk Hits.
+  destruct (run_items_ok c Hb its _ [] [] (SInv_init c ks Hk) Hits) as (s' & ds' & Hrun & HS).
+  exists s'. split; [exact Hrun|]. cbn [app] in HS. exact (SInv_final c s' ds' _ HS).
+Qed.
+
+(* the scripts are what the harness cases are made of *)
+Example script_is_step_op c s p :
+  step_op c [] s (SL [SZ 1; SB p; SL []]) = run_wr c s (WrWrite p) /\
+  step_op c [] s (SL [SZ 2; SB p; SL []]) = run_wr c s (WrString p) /\
+  step_op c [] s (SL [SZ 4; SL []]) = do_close c s [] /\
+  step_op c [] s (SL [SZ 0; SZ 2]) = do_next c s 2 [].
+Proof. repeat split; reflexivity. Qed.
+
+Example wire_valid_instance :
+  let c := mkC false (16 + 14) in
+  let its := [IMsg 1 [WrWrite [104;105]; WrCtl 9 [1]; WrReadFrom (repeat 7 40) [3; 0] true; WrString []];
+              ICtl 10 []; IWriteMessage 2 (repeat 9 200)] in
+  Forall item_ok its /\
+  match run_items c (init_cst false [[1;2;3;4]]) its with
+  | Ok (s', e) => e = 0 /\ match rfc_parse (wire_of s') with
+                           | Some fs => rfc_valid false false fs = true /\ (4 <= length fs)%nat
+                           | None => False end
+  | _ => False
+  end.
+Proof.
+  cbn zeta. split.
+  - repeat (match goal with |- Forall _ _ => constructor | |- _ /\ _ => split | |- True => exact I
+                        | |- item_ok _ => cbn [item_ok] | |- wr_ok _ => cbn [wr_ok] end);
+      try (left; reflexivity); try (right; reflexivity);
+      try (vm_compute; reflexivity); try (vm_compute; discriminate).
+  - vm_compute. repeat split; auto. lia.
+Qed.
+
+(* the same from any fresh connection state: whatever the 14-byte header area holds (the server's
+   write buffer starts with the bytes of the handshake response), whatever the level *)
+Lemma SInv_fresh c m l : length (hdr m) = 14%nat -> werrc m = 0 ->
+  Forall (fun k : bytes => length k = 4%nat) (keys m) -> out m = [] -> SInv c (cst0 m false l) [] [].
+Proof.
+  intros Hh He Hk Ho. unfold SInv, cst0, CInv. cbn [mw wopen comp].
+  split; [|auto]. split; [exact Hh|]. split; [exact He|]. split; [exact Hk|].
+  split; [unfold wire; rewrite Ho; reflexivity|]. split; [constructor|]. split; [constructor|]. exact tail_ok_nil.
+Qed.
+
+Theorem wire_valid_any_header c h ks l its :
+  15 <= blen c < big -> length h = 14%nat ->
+  Forall (fun k : bytes => length k = 4%nat) ks -> Forall item_ok its ->
+  exists s', run_items c (cst0 (mkM h [] maxHdr 0 false ks [] 0) false l) its = Ok (s', eOK) /\
+  exists fs, rfc_parse (wire_of s') = Some fs /\ rfc_valid (srv c) false fs = true /\
+             messages fs = Some (concat (map item_msgs its)).
+Proof.
+  intros Hb Hh Hk Hits.
+  destruct (run_items_ok c Hb its _ [] [] (SInv_fresh c (mkM h [] maxHdr 0 false ks [] 0) l Hh eq_refl Hk eq_refl) Hits)
+    as (s' & ds' & Hrun & HS).
+  exists s'. split; [exact Hrun|]. cbn [app] in HS. exact (SInv_final c s' ds' _ HS).
+Qed.
